@@ -1,6 +1,13 @@
 package main
 
-// JSON-in-annotations model (DESIGN.md §2.5) — filled in below.
+// JSON-in-annotations model (DESIGN.md §2.5).
+
+import (
+	"bytes"
+	"encoding/json"
+	"fmt"
+	"strings"
+)
 
 type JNode struct {
 	kind   string // "obj" "arr" "str" "num" "bool" "null"
@@ -9,7 +16,175 @@ type JNode struct {
 	scalar *Term
 }
 
+// flattenConcat returns the parts of a string term: constants and opaque sub-terms.
+func flattenConcat(t *Term) []*Term {
+	if t.op == "str.++" {
+		var out []*Term
+		for _, a := range t.args {
+			out = append(out, flattenConcat(a)...)
+		}
+		return out
+	}
+	return []*Term{t}
+}
+
+// jsonSkeleton renders a (partly symbolic) JSON text with markers for the symbolic parts.
+func jsonSkeleton(t *Term) (string, []*Term) {
+	parts := flattenConcat(t)
+	var sb strings.Builder
+	var holes []*Term
+	inStr := false
+	esc := false
+	for _, p := range parts {
+		if p.op == "c" {
+			for i := 0; i < len(p.s); i++ {
+				c := p.s[i]
+				if inStr {
+					if esc {
+						esc = false
+					} else if c == '\\' {
+						esc = true
+					} else if c == '"' {
+						inStr = false
+					}
+				} else if c == '"' {
+					inStr = true
+				}
+			}
+			sb.WriteString(p.s)
+			continue
+		}
+		idx := len(holes)
+		holes = append(holes, p)
+		if inStr {
+			fmt.Fprintf(&sb, "@@H%d@@", idx)
+		} else {
+			fmt.Fprintf(&sb, "\"@@B%d@@\"", idx)
+		}
+	}
+	return sb.String(), holes
+}
+
+// markerTerm rebuilds the term of a JSON string value that may contain hole markers.
+func markerTerm(s string, holes []*Term) *Term {
+	var r *Term = mkStr("")
+	for {
+		i := strings.Index(s, "@@")
+		if i < 0 {
+			return mkConcat(r, mkStr(s))
+		}
+		j := strings.Index(s[i+2:], "@@")
+		if j < 0 {
+			return mkConcat(r, mkStr(s))
+		}
+		tag := s[i+2 : i+2+j]
+		var idx int
+		if _, err := fmt.Sscanf(tag[1:], "%d", &idx); err != nil || idx >= len(holes) || (tag[0] != 'H' && tag[0] != 'B') {
+			r = mkConcat(r, mkStr(s[:i+2]))
+			s = s[i+2:]
+			continue
+		}
+		r = mkConcat(r, mkStr(s[:i]))
+		r = mkConcat(r, holes[idx])
+		s = s[i+2+j+2:]
+	}
+}
+
+func parseJSONText(text string) (interface{}, error) {
+	d := json.NewDecoder(bytes.NewReader([]byte(text)))
+	d.UseNumber()
+	var v interface{}
+	if err := d.Decode(&v); err != nil {
+		return nil, err
+	}
+	return v, nil
+}
+
+// icJSONGet implements verifrt.JSONGet(doc, path...) (string, bool).
 func icJSONGet(ex *Exec, fr *frame, fn *ssaFunction, args []Value, pos tokenPos) Value {
-	ex.unsupported("JSONGet not implemented yet")
-	return nil
+	doc := asTerm(args[0])
+	var path []string
+	for _, p := range ex.sliceElems(args[1].(SliceV)) {
+		path = append(path, constStr(ex, p, "JSONGet path element"))
+	}
+	if tok, ok := ex.jsonTok[doc]; ok {
+		n := tok
+		for _, p := range path {
+			if n.kind == "obj" {
+				found := false
+				for i, k := range n.keys {
+					if k == p {
+						n = n.vals[i]
+						found = true
+						break
+					}
+				}
+				if !found {
+					return TupleV{mkStr(""), tFalse}
+				}
+				continue
+			}
+			if n.kind == "arr" {
+				var i int
+				if _, err := fmt.Sscanf(p, "%d", &i); err != nil || i < 0 || i >= len(n.vals) {
+					return TupleV{mkStr(""), tFalse}
+				}
+				n = n.vals[i]
+				continue
+			}
+			return TupleV{mkStr(""), tFalse}
+		}
+		switch n.kind {
+		case "str":
+			return TupleV{n.scalar, tTrue}
+		case "num":
+			return TupleV{mkFromInt(n.scalar), tTrue}
+		case "bool":
+			return TupleV{mkIte(n.scalar, mkStr("true"), mkStr("false")), tTrue}
+		case "null":
+			return TupleV{mkStr("null"), tTrue}
+		case "obj":
+			return TupleV{mkStr("{...}"), tTrue}
+		}
+		return TupleV{mkStr("[...]"), tTrue}
+	}
+	text, holes := jsonSkeleton(doc)
+	v, err := parseJSONText(text)
+	if err != nil {
+		if len(holes) > 0 {
+			ex.unsupported("JSONGet: cannot parse JSON skeleton: " + trunc(text, 200))
+		}
+		return TupleV{mkStr(""), tFalse}
+	}
+	for _, p := range path {
+		switch x := v.(type) {
+		case map[string]interface{}:
+			y, ok := x[p]
+			if !ok {
+				return TupleV{mkStr(""), tFalse}
+			}
+			v = y
+		case []interface{}:
+			var i int
+			if _, err := fmt.Sscanf(p, "%d", &i); err != nil || i < 0 || i >= len(x) {
+				return TupleV{mkStr(""), tFalse}
+			}
+			v = x[i]
+		default:
+			return TupleV{mkStr(""), tFalse}
+		}
+	}
+	switch x := v.(type) {
+	case string:
+		return TupleV{markerTerm(x, holes), tTrue}
+	case json.Number:
+		return TupleV{mkStr(x.String()), tTrue}
+	case bool:
+		return TupleV{mkStr(fmt.Sprint(x)), tTrue}
+	case nil:
+		return TupleV{mkStr("null"), tTrue}
+	case map[string]interface{}:
+		return TupleV{mkStr("{...}"), tTrue}
+	}
+	return TupleV{mkStr("[...]"), tTrue}
 }
